@@ -11,6 +11,10 @@ pub fn run(ctx: &Ctx) -> Outcome {
         run_and_report(ctx, &rx(ctx.tier, 8, vec![MSS, 3], d), &mut out);
     }
     run_and_report(ctx, &rx_rude(ctx.tier, d), &mut out);
+    run_and_report(ctx, &rx_halfclosed(ctx.tier, d), &mut out);
+    for drv in fsm_all(ctx.tier, ctx.tier.pick(4, 6)).into_iter().filter(|d| d.name.contains("finwait") || d.name.contains("inflight")) {
+        run_and_report(ctx, &drv, &mut out);
+    }
     out.rule = "C04: explicit-state BFS over arrival orders x payload sizes x reader behaviour on one real connection; states = distinct fingerprints (full connection dump + harness + monitor state)".into();
     out.assumptions.push("the connection task runs between datagram bursts of at most 2 (Deliver2); the peer's sequence numbers cross 65535 during every run".into());
     out.assumptions.push("window bound judged with the hook's accounting of reader-queue + reassembly bytes at the end of the step".into());
